@@ -726,7 +726,11 @@ func (lh *levelHandler) searchL0SST(key []byte) (*kv.Entry, error) {
 		version uint64
 		best    *kv.Entry
 	)
-	for _, table := range lh.tables {
+	// L0 tables are ordered by file id (oldest first). Scan newest first so that,
+	// when two tables hold the same internal key (same version), the most recently
+	// flushed one wins instead of the oldest.
+	for i := len(lh.tables) - 1; i >= 0; i-- {
+		table := lh.tables[i]
 		if table == nil {
 			continue
 		}
